@@ -302,6 +302,30 @@ pub fn run() {
                 let mut set = IpcReceiverSet::new().unwrap();
                 let (_stx, srx) = ipc::channel::<u32>().unwrap();
                 set.add(srx).unwrap();
+                // a server that has not accepted yet (its listening socket is open)
+                let (_server2, _name2) = IpcOneShotServer::<u32>::new().unwrap();
+                // endpoints received through the NON-blocking paths: try_recv, try_recv_timeout and a set's select
+                let (ntx, nrx) = ipc::channel::<(IpcSender<u32>, ipc::IpcReceiver<u32>)>().unwrap();
+                let mut keep_alive = Vec::new();
+                for _ in 0..3 {
+                    let (a, _ar) = ipc::channel::<u32>().unwrap();
+                    let (_b, br) = ipc::channel::<u32>().unwrap();
+                    ntx.send((a, br)).unwrap();
+                    keep_alive.push((_ar, _b));
+                }
+                let _got1 = nrx.try_recv().unwrap();
+                let _got2 = nrx.try_recv_timeout(std::time::Duration::from_millis(200)).unwrap();
+                let mut set2 = IpcReceiverSet::new().unwrap();
+                set2.add(nrx).unwrap();
+                let _got3: Vec<(IpcSender<u32>, ipc::IpcReceiver<u32>)> = set2
+                    .select()
+                    .unwrap()
+                    .into_iter()
+                    .filter_map(|e| match e {
+                        ipc::IpcSelectionResult::MessageReceived(_, m) => m.to().ok(),
+                        _ => None,
+                    })
+                    .collect();
                 let with_objects = child_fds();
                 drop(cloned);
                 println!("{}", json!({"kind":"inherit","base":base,"with_objects":with_objects,"own_fds":open_fds().len()}));
